@@ -11,7 +11,8 @@
 (***************************************************************************)
 EXTENDS Rational, Sequences, FiniteSets, TLC, Json
 
-CONSTANTS Negs       \* set of BOOLEAN: psi_lcfs - psi_axis negative?
+CONSTANTS Negs,      \* set of BOOLEAN: psi_lcfs - psi_axis negative?
+          Deep       \* TRUE (thorough): more elongations / shapes of the flux surfaces
 
 R0 == 4
 Rs == 1..7
@@ -28,7 +29,7 @@ VARIABLES neg, A, B, r, z, ang,
           off      \* the reported axis flux is s * off / 2: with off = 1 the gridded psi dips (marginally) beyond the reported
                    \* axis value around the magnetic axis, as it does in real EFIT output
 vars == <<neg, A, B, r, z, ang, off>>
-Init == neg \in Negs /\ A \in {1, 2} /\ B \in {1, 3} /\ r \in Rs /\ z \in Zc /\ ang \in 1..Len(Angles) /\ off \in {0, 1}
+Init == neg \in Negs /\ A \in (IF Deep THEN {1, 2, 3, 5} ELSE {1, 2}) /\ B \in (IF Deep THEN {1, 2, 3, 7} ELSE {1, 3}) /\ r \in Rs /\ z \in Zc /\ ang \in 1..Len(Angles) /\ off \in {0, 1}
         /\ (off = 1 => ang = 1)
 Next == UNCHANGED vars
 Spec == Init /\ [][Next]_vars
